@@ -185,6 +185,19 @@ def check(spec, ctx):
         other = [(x.start_time, x.end_time, x.uuid) for x in call()]
         if other != [(x.start_time, x.end_time, x.uuid) for x in segs]:
             ctx.fail(f"segment_clip written with {how} gives other segments than the keyword call", spec, other[:3], got[:3], kind="call_style")
+    # two segmentations alive at the same time (segment_clip is lazy): consumed in lock step, and run from two threads with this
+    # one suspended at lines inside the library, they give what they give one after the other
+    if len(segs) <= 64:
+        import itertools as _it
+
+        clip_b = clip.model_copy(update={"start_time": start + dur / 4, "end_time": end + 2 * dur})
+        kw_b = dict(kw, duration=dur * 1.5)
+        key = lambda xs: [(x.start_time, x.end_time, x.uuid) for x in xs if x is not None]  # noqa: E731
+        seq_a, seq_b = key(segs), key(segment_clip(clip_b, **kw_b))
+        pairs_ = list(_it.zip_longest(segment_clip(clip, **kw), segment_clip(clip_b, **kw_b)))
+        if key(a for a, _ in pairs_) != seq_a or key(b for _, b in pairs_) != seq_b:
+            ctx.fail("two segment_clip results consumed in lock step differ from the same calls made one after the other", spec, [key(a for a, _ in pairs_)[:3], key(b for _, b in pairs_)[:3]], [seq_a[:3], seq_b[:3]], kind="interleaved")
+        ctx.interleave(spec, "segment_clip", lambda: key(segment_clip(clip, **kw)), lambda: key(segment_clip(clip_b, **kw_b)), every=4, max_pauses=24)
     # include_incomplete defaults to False
     if not inc:
         kw_d = {k: v for k, v in kw.items() if k != "include_incomplete"}
